@@ -86,16 +86,16 @@ async function read_case_inner(c) {
     if (c.mode === 'bulk') {
         tmp = path.join(scratch_dir(), 'f' + process.pid + '.csv');
         fs.writeFileSync(tmp, Buffer.from(c.hex, 'hex'));
-        it = new rbql_csv.CSVRecordIterator(null, tmp, c.encoding, c.dlm, c.policy, !!c.has_header, c.comment_prefix || null);
+        it = new rbql_csv.CSVRecordIterator(null, tmp, c.encoding, c.dlm, c.policy, !!c.has_header, (c.comment_prefix === undefined ? null : c.comment_prefix));
     } else if (c.mode === 'file_stream') {
         tmp = path.join(scratch_dir(), 'g' + process.pid + '.csv');
         fs.writeFileSync(tmp, Buffer.from(c.hex, 'hex'));
-        it = new rbql_csv.CSVRecordIterator(fs.createReadStream(tmp), null, c.encoding, c.dlm, c.policy, !!c.has_header, c.comment_prefix || null);
+        it = new rbql_csv.CSVRecordIterator(fs.createReadStream(tmp), null, c.encoding, c.dlm, c.policy, !!c.has_header, (c.comment_prefix === undefined ? null : c.comment_prefix));
     } else {
         pieces = c.pieces.map(h => Buffer.from(h, 'hex'));
         let ps = new PieceStream(pieces);
         if (c.text_stream) ps.setEncoding('latin1');      // a text stream: the same pieces arrive as strings (one latin-1 character per byte)
-        it = new rbql_csv.CSVRecordIterator(ps, null, c.encoding, c.dlm, c.policy, !!c.has_header, c.comment_prefix || null);
+        it = new rbql_csv.CSVRecordIterator(ps, null, c.encoding, c.dlm, c.policy, !!c.has_header, (c.comment_prefix === undefined ? null : c.comment_prefix));
     }
     let out = {};
     try {
